@@ -95,24 +95,57 @@ def r03b(model: Model, rr: RuleResult):
     cfg = cfg_of(fi)
     ct = find_calls(fi, "_create_transformed_glyph")
     if len(ct) != 1:
-        raise AnalysisError("_colr0_layers: _create_transformed_glyph call not found")
-    facts = [(norm(e), pol) for e, pol in guard_facts(cfg, cfg.node_for(ct[0]), skip_abort_guards=True)]
-    if ("context.transform != Affine2D.identity()", True) in facts or ("context.transform == Affine2D.identity()", False) in facts:
+        # the choice may have been moved into a helper: read the layer's glyph name as an expression with alternatives
+        from ..dataflow import resolved, inline_new_helpers
+        from ..guards import canon_fact
+        apps = [c for c in calls_in(fi) if callee_tail(c) == "append" and norm(c.func.value) == "layers"]
+        if len(apps) == 1 and isinstance(apps[0].args[0], ast.Tuple):
+            e = inline_new_helpers(resolved(cfg, cfg.node_for(apps[0]), apps[0].args[0].elts[0]), fi)
+            alts = []
+
+            def emit(x, conds):
+                if isinstance(x, ast.IfExp):
+                    emit(x.body, conds + [canon_fact(x.test, True)])
+                    emit(x.orelse, conds + [canon_fact(x.test, False)])
+                else:
+                    alts.append((norm(x), conds))
+            emit(e, [])
+            ident = [(v, c) for v, c in alts if "_create_transformed_glyph" not in v]
+            made = [(v, c) for v, c in alts if "_create_transformed_glyph" in v]
+            if len(ident) == 1 and len(made) == 1 and ident[0][1] == [("context.transform == Affine2D.identity()", True)] and made[0][1] == [("context.transform == Affine2D.identity()", False)] \
+                    and made[0][0].replace(" ", "").startswith("_create_transformed_glyph(color_glyph,") and made[0][0].endswith("context.transform).name") \
+                    and ident[0][0].endswith(".glyph") and "context.paint" in ident[0][0]:
+                rr.ok("a transformed component glyph is created exactly when context.transform is not the identity")
+                rr.ok("_create_transformed_glyph(color_glyph, paint_glyph, context.transform): same context")
+                rr.ok("layer glyph = the PaintGlyph's glyph, or the transformed composite built for it")
+                ct = None
+        if ct is not None:
+            raise AnalysisError("_colr0_layers: _create_transformed_glyph call not found")
+    if ct is None:
+        facts = []
+    else:
+        facts = [(norm(e), pol) for e, pol in guard_facts(cfg, cfg.node_for(ct[0]), skip_abort_guards=True)]
+    if ct is None:
+        pass
+    elif ("context.transform != Affine2D.identity()", True) in facts or ("context.transform == Affine2D.identity()", False) in facts:
         rr.ok("a transformed component glyph is created exactly when context.transform is not the identity")
     else:
         rr.bad(fi, ct[0], "transformed glyph creation is not tied to `context.transform != identity`", construct=f"_create_transformed_glyph under {facts}")
-    if [norm(a) for a in ct[0].args] == ["color_glyph", "paint_glyph", "context.transform"]:
+    if ct is None:
+        pass
+    elif [norm(a) for a in ct[0].args] == ["color_glyph", "paint_glyph", "context.transform"]:
         rr.ok("_create_transformed_glyph(color_glyph, paint_glyph, context.transform): same context")
     else:
         rr.bad(fi, ct[0], "transformed glyph is not built from this context's paint and transform", construct=short(ct[0]))
-    app = [c for c in calls_in(fi) if callee_tail(c) == "append" and norm(c.func.value) == "layers"][0]
-    nm = app.args[0].elts[0] if isinstance(app.args[0], ast.Tuple) else None
-    defs = cfg.reaching(cfg.node_for(app), norm(nm)) if isinstance(nm, ast.Name) else []
-    srcs = sorted(norm(d.value) for d in defs)
-    if len(defs) == 2 and any(s == "paint_glyph.glyph" for s in srcs) and any("_create_transformed_glyph" in s and s.endswith(".name") for s in srcs):
-        rr.ok("layer glyph = the PaintGlyph's glyph, or the transformed composite built for it")
-    else:
-        rr.bad(fi, app, f"layer glyph name comes from {srcs}", construct="_colr0_layers: glyph_name definitions")
+    if ct is not None:
+        app = [c for c in calls_in(fi) if callee_tail(c) == "append" and norm(c.func.value) == "layers"][0]
+        nm = app.args[0].elts[0] if isinstance(app.args[0], ast.Tuple) else None
+        defs = cfg.reaching(cfg.node_for(app), norm(nm)) if isinstance(nm, ast.Name) else []
+        srcs = sorted(norm(d.value) for d in defs)
+        if len(defs) == 2 and any(s == "paint_glyph.glyph" for s in srcs) and any("_create_transformed_glyph" in s and s.endswith(".name") for s in srcs):
+            rr.ok("layer glyph = the PaintGlyph's glyph, or the transformed composite built for it")
+        else:
+            rr.bad(fi, app, f"layer glyph name comes from {srcs}", construct="_colr0_layers: glyph_name definitions")
     t = model.func("write_font", "_create_transformed_glyph")
     c2 = [c for c in calls_in(t) if norm(c.func) == "Component"]
     tcfg = cfg_of(t)
@@ -274,6 +307,12 @@ def r05b(model: Model, rr: RuleResult):
 def r05c(model: Model, rr: RuleResult):
     fi = model.func("write_font", "_quantize_bounding_rect")
     rets = [st for st in walk_body(fi) if isinstance(st, ast.Return)]
+    if len(rets) == 1 and rets[0].value is not None and not (isinstance(rets[0].value, ast.Tuple) and len(rets[0].value.elts) == 4):
+        # named pieces, local one-line helpers, concatenated pairs: bring the returned value to one tuple expression
+        from ..dataflow import resolved, inline_new_helpers, fold_tuples
+        qcfg = cfg_of(fi)
+        v = fold_tuples(inline_new_helpers(resolved(qcfg, qcfg.node_for(rets[0]), rets[0].value), fi))
+        rets = [ast.copy_location(ast.Return(value=v), rets[0])]
     if len(rets) != 1 or not isinstance(rets[0].value, ast.Tuple) or len(rets[0].value.elts) != 4:
         raise AnalysisError("_quantize_bounding_rect: 4-tuple return not found")
     params = fi.params[:4]
